@@ -209,7 +209,7 @@ def r14_6(ctx):
 def r14_s(ctx):
     """further clauses of the validating skipper behind the checked lazy APIs (shared with C02)"""
     from . import c02
-    for fn in (c02.r02_2, c02.r02_4, c02.r02_7, c02.r02_11, c02.r02_12):
+    for fn in (c02.r02_2, c02.r02_4, c02.r02_7, c02.r02_11, c02.r02_12, c02.r02_13):
         ctx.include(fn, 'R14.S')
     from . import c10
     ctx.include(c10.r10_1, 'R14.S')   # the checked walkers decode a member name before they compare it (no raw-byte shortcut past the validating key parser)
